@@ -167,6 +167,13 @@ def rule_r3(p, res):
         if f is not None:
             hooks.append((c, f))
     need(hooks, "C02.R3: no concrete _transform_self_inplace found")
+    # the object-level hook itself only delegates: it never assigns an attribute of the shape (going through the `landmarks`
+    # setter would re-validate -- and copy -- the landmarks against points that have not been transformed yet)
+    shp = p.own_method("Shape", "_transform_inplace")
+    r.instance(shp)
+    direct = self_attr_stores(shp.node)
+    r.check(not direct, shp, direct[0][1] if direct else shp.node, "Shape._transform_inplace assigns `self.%s` itself: the landmark manager must be transformed in place, not re-installed through "
+            "the setter (which checks the landmarks' dimensionality against the not-yet-transformed points and fails for dimension-changing transforms)" % (direct[0][0] if direct else ""))
     for c, f in hooks:
         r.instance(f)
         stores = self_attr_stores(f.node)
@@ -268,4 +275,9 @@ WITNESSES = [
             rule="C02.R3", construct="PointCloud._transform_self_inplace"),
     Witness("C02.W8", "menpo/transform/homogeneous/base.py", "Homogeneous._apply", "[:, :-1]", "[:, :self.n_dims]", rule="C02.R6", construct="Homogeneous._apply", note="seeded change R2-C02-B"),
     Witness("C02.T1", "menpo/transform/homogeneous/affine.py", "Affine._apply", "np.dot(x, self.linear_component.T)", "x.dot(self.linear_component.T)", kind="T"),
+]
+
+WITNESSES += [
+    Witness("C02.W9", "menpo/shape/base.py", "Shape._transform_inplace", "self.landmarks._transform_inplace(transform)", "self.landmarks = self.landmarks._transform_inplace(transform)",
+            rule="C02.R3", construct="Shape._transform_inplace", note="seeded change R4-C02-A"),
 ]
